@@ -102,30 +102,33 @@ def teardownF (rx : Handle → RSt → Option Exc → RR) (c : Nat) (s : RSt) : 
     let r2 := releaseAllWith rx (r1.1.mgr c).built.reverse r1.1 r1.2
     (r2.1.setMgr c { r2.1.mgr c with inst := none, built := [] }, r2.2)
 
+/-- reset_on_error: "forcefully de-initialize this instance if the context-manager … was exited
+    with an exception.  The exception is then of course propagated further up." (pytest skips excepted) -/
+def roeStep (td : Nat → RSt → RR) (h : Handle) (s : RSt) (e : Option Exc) : RR :=
+  match e with
+  | some ex =>
+    if h.roe && ex.kind != .skip && s.alive h.cls then
+      let r := td h.cls s
+      (r.1, later (some ex) r.2)
+    else (s, some ex)
+  | none => (s, none)
+
+/-- "Once this request() ends, the instance will be torn down" (exclusive); otherwise the last
+    holder tears it down unless instances are kept alive -/
+def lastStep (td : Nat → RSt → RR) (c : Nat) (excl : Bool) (s : RSt) (e : Option Exc) : RR :=
+  if excl || (!s.keepAlive && (s.mgr c).holders == 0) then
+    if s.alive c then
+      let r := td c s
+      (r.1, later e r.2)
+    else (s, e)
+  else (s, e)
+
 /-- a request ends, `e` = the exception its body was left with -/
 def releaseF (td : Nat → RSt → RR) (h : Handle) (s : RSt) (e : Option Exc) : RR :=
-  -- reset_on_error: "forcefully de-initialize this instance if the context-manager … was exited
-  -- with an exception.  The exception is then of course propagated further up."
-  let r0 : RR :=
-    match e with
-    | some ex =>
-      if h.roe && ex.kind != .skip && s.alive h.cls then
-        let r := td h.cls s
-        (r.1, later (some ex) r.2)
-      else (s, some ex)
-    | none => (s, none)
+  let r0 := roeStep td h s e
   let s := r0.1
-  let m := s.mgr h.cls
-  let s := s.setMgr h.cls { m with holders := m.holders - 1 }
-  -- "Once this request() ends, the instance will be torn down" (exclusive); otherwise the last
-  -- holder tears it down unless instances are kept alive
-  let r2 : RR :=
-    if h.excl || (!s.keepAlive && m.holders - 1 == 0) then
-      if s.alive h.cls then
-        let r := td h.cls s
-        (r.1, later r0.2 r.2)
-      else (s, r0.2)
-    else (s, r0.2)
+  let s := s.setMgr h.cls { s.mgr h.cls with holders := (s.mgr h.cls).holders - 1 }
+  let r2 := lastStep td h.cls h.excl s r0.2
   (r2.1.log (.released h.dep h.cls), r2.2)
 
 /-- request the prerequisites in order; stop at the first failure -/
